@@ -227,7 +227,7 @@ func (s *space) scalarIndex(v *big.Int) int {
 // histories is sub-space (vi): stateful precomputed objects.
 func (s *space) histories(c *mc.Ctx) {
 	depth := 4
-	npts := c.Pick(2, 3) // quick: two of the three points
+	npts := c.Pick(2, 3)                                   // quick: two of the three points
 	ai, bi := s.core[len(s.core)-1], s.core[len(s.core)-2] // generic core scalars (one reduced, one unreduced)
 	a, b := s.scs[ai], s.scs[bi]
 	oneIdx := s.scalarIndex(big.NewInt(1))
